@@ -80,8 +80,13 @@ theorem keys_of_structRows : ∀ {l l' : List Node}, All₂ StructRow l l' → l
 
 /-- **A structural change preserves the structural invariant.** -/
 theorem struct_of_rel {s s' : KState} (h : StructRel s s') (hS : Struct s) : Struct s' := by
-  refine ⟨?_, ?_, ?_, ?_, fun d hd => hS.dkinds d (h.deps d hd), ?_⟩
+  refine ⟨?_, ?_, ?_, ?_, fun d hd => hS.dkinds d (h.deps d hd), ?_, ?_⟩
   rotate_left 4
+  rotate_left 1
+  · intro n' hn' hr
+    obtain ⟨n, hn, hrow⟩ := forall₂_mem_right h.rows n' hn'
+    rw [hrow.1]; exact hS.roots n hn (hrow.1 ▸ hr)
+  rotate_right 1
   · intro d hd
     have hc := hS.closed d (h.deps d hd)
     have e1 := h.find? d.src
@@ -274,7 +279,7 @@ theorem structRel_deleteDeps (s : KState) (p : Dep → Bool) : StructRel s (s.de
 in the debt) already; the trigger flags the endpoints. -/
 theorem wd_deleteDeps {F : Key → Prop} {s : KState} {cfg : KConfig} (p : Dep → Bool) (hc : WD F s cfg)
     (hup : ∀ n ∈ s.nodes, n.key.kind = .step → n.detached = false →
-      (∃ d ∈ s.deps, p d = true ∧ d.snk.kind = .step ∧ Edge s.deps n.key d.src) → n.checkAfter = true ∨ F n.key) :
+      (∃ d ∈ s.deps, p d = true ∧ ConsRow s d.snk ∧ Edge s.deps n.key d.src) → n.checkAfter = true ∨ F n.key) :
     WD F (s.deleteDeps p) cfg := by
   have h1 := wd_filterDeps (cfg := cfg) p hc
   obtain ⟨hrel, hfl⟩ := flagFold_spec (s.deps.filter p) ({ s with deps := s.deps.filter fun d => !p d } : KState)
@@ -314,7 +319,7 @@ theorem RInv.detach {cfg : KConfig} {s0 s s' : KState} {k : Key} (h : RInv cfg s
 
 theorem RInv.deleteDeps {cfg : KConfig} {s0 s : KState} (p : Dep → Bool) (h : RInv cfg s0 s)
     (hup : ∀ n ∈ s.nodes, n.key.kind = .step → n.detached = false →
-      (∃ d ∈ s.deps, p d = true ∧ d.snk.kind = .step ∧ Edge s.deps n.key d.src) → n.checkAfter = true) :
+      (∃ d ∈ s.deps, p d = true ∧ ConsRow s d.snk ∧ Edge s.deps n.key d.src) → n.checkAfter = true) :
     RInv cfg s0 (s.deleteDeps p) :=
   ⟨struct_of_rel (structRel_deleteDeps s p) h.st,
     disc_of_wd (wd_deleteDeps p (wd_of_disc _ h.disc) fun n hn h1 h2 h3 => .inl (hup n hn h1 h2 h3)),
@@ -355,10 +360,10 @@ theorem RInv.dropDynamicSink {cfg : KConfig} {s0 s s' : KState} {step k : Key} (
     (hs : s.dropDynamicSink step k = .ok s') : RInv cfg s0 s' := by
   unfold KState.dropDynamicSink at hs
   refine (h.deleteDeps (fun d => d.src = step ∧ d.snk = k) ?_).detach hfile hs
-  intro n hn hst hd ⟨d, hdm, hp, hkind, _⟩
+  intro n hn hst hd ⟨d, hdm, hp, ⟨m, hm, hmk, _⟩, _⟩
   simp only [decide_eq_true_eq, Bool.decide_and, Bool.and_eq_true] at hp
-  rw [hp.2, hk] at hkind
-  cases hkind
+  rw [find_key hm, hp.2, hk] at hmk
+  cases hmk
 
 theorem outdateBuilt_soft {s0 : KState} (k : Key) : Preserves (SP s0) (fun s => s.outdateBuilt k) := by
   intro s s' hp h
